@@ -195,6 +195,9 @@ pub fn decode(t: &mut Tape) -> Case {
 }
 
 type Demand = BTreeMap<String, BTreeSet<&'static str>>;
+/// For every function: the parameter registers whose entry value is read on some jump-edge path from
+/// the function entry to one of its `Return`s (what a returning call transfers to its caller).
+type CalleeDemand = BTreeMap<Tid, BTreeSet<String>>;
 
 fn add_use(d: &mut Demand, killed: &BTreeSet<String>, e: &Expression, kind: &'static str) {
     for v in e.input_vars() {
@@ -205,7 +208,7 @@ fn add_use(d: &mut Demand, killed: &BTreeSet<String>, e: &Expression, kind: &'st
 }
 
 /// Upward-exposed uses of one block (gen) and the registers it defines (kill).
-fn block_gen_kill(project: &Project, b: &Term<Blk>, params: &BTreeSet<String>) -> (Demand, BTreeSet<String>) {
+fn block_gen_kill(project: &Project, b: &Term<Blk>, params: &BTreeSet<String>, callee_demand: &CalleeDemand) -> (Demand, BTreeSet<String>) {
     let mut gen: Demand = BTreeMap::new();
     let mut killed: BTreeSet<String> = BTreeSet::new();
     for d in &b.term.defs {
@@ -248,6 +251,15 @@ fn block_gen_kill(project: &Project, b: &Term<Blk>, params: &BTreeSet<String>) -
                             }
                         }
                     }
+                } else if return_.is_some() {
+                    // returning call of an internal function that reads the register's value on a path to its return
+                    if let Some(regs) = callee_demand.get(target) {
+                        for r in regs {
+                            if !killed.contains(r) {
+                                gen.entry(r.clone()).or_default().insert("read-by-internal-callee");
+                            }
+                        }
+                    }
                 }
                 for p in params {
                     killed.insert(p.clone());
@@ -265,10 +277,16 @@ fn block_gen_kill(project: &Project, b: &Term<Blk>, params: &BTreeSet<String>) -
 }
 
 /// Registers demanded at the entry of `sub` with the kinds of their first uses.
-pub fn demanded(project: &Project, sub: &Term<Sub>, params: &BTreeSet<String>) -> Demand {
+pub fn demanded(project: &Project, sub: &Term<Sub>, params: &BTreeSet<String>, callee_demand: &CalleeDemand) -> Demand {
+    demand_at_entry(project, sub, params, callee_demand, false)
+}
+
+/// Backward upward-exposed-use dataflow. With `only_paths_to_return` the uses are restricted to
+/// jump-edge paths that end in a block with a `Return` jump.
+fn demand_at_entry(project: &Project, sub: &Term<Sub>, params: &BTreeSet<String>, callee_demand: &CalleeDemand, only_paths_to_return: bool) -> Demand {
     let n = sub.term.blocks.len();
     let idx: BTreeMap<&Tid, usize> = sub.term.blocks.iter().enumerate().map(|(i, b)| (&b.tid, i)).collect();
-    let gk: Vec<(Demand, BTreeSet<String>)> = sub.term.blocks.iter().map(|b| block_gen_kill(project, b, params)).collect();
+    let gk: Vec<(Demand, BTreeSet<String>)> = sub.term.blocks.iter().map(|b| block_gen_kill(project, b, params, callee_demand)).collect();
     // successors through jump edges only: calls end the search (all parameter registers are clobbered)
     let mut succ: Vec<Vec<usize>> = vec![vec![]; n];
     for (i, b) in sub.term.blocks.iter().enumerate() {
@@ -290,13 +308,31 @@ pub fn demanded(project: &Project, sub: &Term<Sub>, params: &BTreeSet<String>) -
             }
         }
     }
+    // blocks from which a Return is reachable over jump edges
+    let mut reaches_return: Vec<bool> = sub.term.blocks.iter().map(|b| b.term.jmps.iter().any(|j| matches!(j.term, Jmp::Return(_)))).collect();
+    let mut ch = true;
+    while ch {
+        ch = false;
+        for i in 0..n {
+            if !reaches_return[i] && succ[i].iter().any(|s| reaches_return[*s]) {
+                reaches_return[i] = true;
+                ch = true;
+            }
+        }
+    }
     let mut live_in: Vec<Demand> = vec![BTreeMap::new(); n];
     let mut changed = true;
     while changed {
         changed = false;
         for i in (0..n).rev() {
+            if only_paths_to_return && !reaches_return[i] {
+                continue;
+            }
             let mut new_in = gk[i].0.clone();
             for s in &succ[i] {
+                if only_paths_to_return && !reaches_return[*s] {
+                    continue;
+                }
                 for (r, kinds) in &live_in[*s] {
                     if !gk[i].1.contains(r) {
                         let e = new_in.entry(r.clone()).or_default();
@@ -335,12 +371,25 @@ pub fn check_case(case: &Case, ctx: &mut Ctx) -> CaseResult {
         Err(f) => return ctx.report(format!("C14:signature-analysis:{}", f.signature), format!("{}\n{}", f.detail, project.program.term)),
     };
     let params: BTreeSet<String> = PARAM_REGS.iter().map(|s| s.to_string()).collect();
+    // least fixpoint of "read on a path to a return", across (possibly recursive) internal calls
+    let mut callee_demand: CalleeDemand = BTreeMap::new();
+    loop {
+        let mut next: CalleeDemand = BTreeMap::new();
+        for (tid, s) in project.program.term.subs.iter() {
+            let d = demand_at_entry(&project, s, &params, &callee_demand, true);
+            next.insert(tid.clone(), d.keys().cloned().collect());
+        }
+        if next == callee_demand {
+            break;
+        }
+        callee_demand = next;
+    }
     let mut any_nontrivial = false;
     for (tid, s) in project.program.term.subs.iter() {
         if tid.is_artificial_sink_sub() {
             continue;
         }
-        let dem = demanded(&project, s, &params);
+        let dem = demanded(&project, s, &params, &callee_demand);
         let sig = match sigs.get(tid) {
             Some(s) => s,
             None => return ctx.report("C14:no-signature-for-function", format!("function {} has no signature", tid)),
@@ -358,7 +407,7 @@ pub fn check_case(case: &Case, ctx: &mut Ctx) -> CaseResult {
             for k in kinds {
                 ctx.label(&format!("demand-kind:{}", k));
             }
-            let gen0 = block_gen_kill(&project, &s.term.blocks[0], &params).0;
+            let gen0 = block_gen_kill(&project, &s.term.blocks[0], &params, &callee_demand).0;
             if !gen0.contains_key(r) {
                 any_nontrivial = true;
             }
@@ -384,7 +433,7 @@ pub fn check_case(case: &Case, ctx: &mut Ctx) -> CaseResult {
 }
 
 pub fn run(eng: &mut Engine) {
-    eng.rule = "cases = generated projects of 1..4 functions (1..8 blocks) reading and writing calling-convention parameter registers in assignments, load/store addresses, store values, branch conditions, indirect jump/call targets and return targets, with partial overwrites, loops, extern calls (declared parameters, returning and no_return), internal and indirect calls; the program is normalized like the pipeline does, signatures computed by compute_function_signatures; oracle = own backward upward-exposed-use dataflow over intraprocedural jump edges (calls end a path; bare-variable stores and arguments of non-returning calls are not demanded); demanded parameter registers must be reported; non-trivial = some demanded register is first used outside the entry block; distinct by hash of the normalized program".into();
+    eng.rule = "cases = generated projects of 1..4 functions (1..8 blocks) reading and writing calling-convention parameter registers in assignments, load/store addresses, store values, branch conditions, indirect jump/call targets and return targets, with partial overwrites, loops, extern calls (declared parameters, returning and no_return), internal and indirect calls; the program is normalized like the pipeline does, signatures computed by compute_function_signatures; oracle = own backward upward-exposed-use dataflow over intraprocedural jump edges (every call clobbers the parameter registers and ends a path; a returning call of an internal function counts as a read of the registers that function reads on a jump-edge path to one of its returns, computed as least fixpoint over the call graph; bare-variable stores and arguments of non-returning calls are not demanded); demanded parameter registers must be reported; non-trivial = some demanded register is first used outside the entry block; distinct by hash of the normalized program".into();
     eng.assumptions = vec!["the demand computed by the oracle under-approximates 'can be read before being overwritten' (paths are cut at every call), so every demanded register is covered by the property".into()];
     let cases = eng.tier.pick(100_000u64, 3_000_000u64);
     eng.random(
